@@ -13,6 +13,11 @@ def pipeline(tier, seed, replay=None):
         mc_stats = {"distinct": 0, "generated": 0}
     else:
         cases, mc_stats, _ = vlib.run_mc("MC_C02.tla", "C02_%s.cfg" % tier, "C02", workers=8, timeout=3000)
+        if tier == "thorough":
+            # plus seeded random documents of the SchemaGen machine (VERIF_SEED)
+            gcases, gst0 = vlib.gen_cases(seed, 900)
+            cases = cases + gcases
+            mc_stats["simulated"] = gst0
     # oracle self-check: TLA+ Valid vs Python jsonschema on every (schema, instance) of the run
     items = []
     for c in cases:
